@@ -556,7 +556,10 @@ func TestPropProxy(t *testing.T) {
 			ContentType: rapid.SampledFrom([]string{"text/html", "text/html", "text/html; charset=utf-8", "text/html; charset=utf-8", "application/json", "text/plain; charset=utf-8", "text/css", "application/xhtml+xml"}).Draw(t, "ct"),
 			Encoding:    rapid.SampledFrom([]string{"", "", "gzip", "gzip", "br", "br", "deflate", "zstd", "x-junk"}).Draw(t, "enc"),
 			CSP: rapid.SampledFrom([]string{"", "", "script-src 'self' 'nonce-abc123'", "default-src 'self'; script-src 'nonce-r4nd0m' 'strict-dynamic'; style-src 'nonce-zzz'",
-				"script-src 'nonce-first' 'nonce-second'", "style-src 'nonce-onlystyle'", "default-src 'none'", "img-src *;script-src  'unsafe-inline'   'nonce-sp4ced' ;"}).Draw(t, "csp"),
+				"script-src 'nonce-first' 'nonce-second'", "style-src 'nonce-onlystyle'", "default-src 'none'", "img-src *;script-src  'unsafe-inline'   'nonce-sp4ced' ;",
+				// nonces as servers really mint them: standard base64 of 16 / 32 / 10 bytes (with = padding), base64url, + and /
+				"script-src 'nonce-dGVtcGwtbm9uY2UtMTIzNA=='", "default-src 'self'; script-src 'self' 'nonce-q83vASNFZ4mrze8BI0VniavN7wEjRWeJq83vASNFZ4k=' 'strict-dynamic'",
+				"script-src 'nonce-AAECAwQFBgcICQ=='", "script-src 'nonce-a+b/c+d/e+f/0123456789=='", "script-src 'nonce-a-b_c-d_e-f_0123456789'", "SCRIPT-SRC 'nonce-UPPERdirective='"}).Draw(t, "csp"),
 			HX:        rapid.IntRange(0, 5).Draw(t, "hx") == 0,
 			SkipMark:  rapid.IntRange(0, 7).Draw(t, "skip") == 0,
 			AcceptEnc: rapid.IntRange(0, 4).Draw(t, "ae") > 0,
